@@ -376,7 +376,7 @@ def run(r) -> None:
     r.run_cases("filter-symbol", "filter_symbol", [dict(ftype=t, order=o, field_type=ft) for t in ("multiplicative", "convolution") for o in orders for ft in ("scalar", "vector")])
     r.run_cases("filter-history", "filter_history", [dict(ftype=t, order=o, field_type=ft, dtype=dt, poison=p, depth=3 if quick else 5) for t in ("multiplicative", "convolution") for o in ((1, 2) if quick else (1, 2, 3, 4)) for ft in ("scalar", "vector")
                                                      for dt in dts for p in (float("nan"), 1e30)])
-    r.bounds = {"brinkmann": {"u,u_b": U_ALPHA, "lambda": LAM, "chi": CHI}, "level_set": "phi/eps in {-2,-1-ulp,-1,-1+ulp,-0.9,-0.5,-0.25,-1e-3,-ulp,0,ulp,1e-3,0.25,0.5,0.9,1-ulp,1,1+ulp,2}, eps in {0.1, 1/3}",
+    r.bounds = {"brinkmann": {"u,u_b": U_ALPHA, "lambda": LAM, "chi": CHI}, "level_set": "phi/eps in {-2,-1-ulp,-1,-1+ulp,-0.9,-0.5,-0.25,-1e-3,-ulp,0,ulp,1e-3,0.25,0.5,0.9,1-ulp,1,1+ulp,2} and 65 equispaced values in [-1, 1], eps in " + repr(CHARFUNC_BLEND_WIDTHS),
                 "damping_widths": list(range(7)), "filter_orders": list(orders), "filter_history_depth": 3}
     r.extra["rule"] = "brinkmann/charfunc: one state per alphabet tuple (cell); damping: per (width, shape, pattern, variant); filters: per Fourier mode of the 12^3 lattice + BFS states of buffer histories"
     r.assumptions = ["interpreter back end (float and exact modes), bound by conformance replay"]
